@@ -444,3 +444,38 @@ def load_findings():
 
 def w32(z):
     return ((z + 2**31) % 2**32) - 2**31
+
+
+# ---- allocation-failure injection (harness/mem_drv.cpp, op allocfail): shared by C09, C10, C11, C16 ----
+ALLOCFAIL_FN = {0: 'torusPolynomialMultKaratsuba', 1: 'torusPolynomialAddMulRKaratsuba', 2: 'torusPolynomialSubMulRKaratsuba', 3: 'torusPolynomialMultFFT',
+                4: 'torusPolynomialAddMulRFFT', 5: 'torusPolynomialSubMulRFFT', 6: 'tGswExternMulToTLwe', 7: 'tGswFFTExternMulToTLwe', 8: 'tGswExternProduct',
+                9: 'tLweSymDecryptT'}
+
+def allocfail_block(ctx, cases, backends=('spqlios-fma',)):
+    """cases: (fn, N, k, l, Bgbit).  Every allocation request inside the call fails in turn; a call that then returns normally with a
+       result different from the undisturbed one is reported (an exception or a dead process is a reported failure, not a silent one)."""
+    tot = {'calls': 0, 'fault_points': 0, 'reported': 0, 'died': 0, 'unaffected': 0}
+    for be in backends:
+        exe = build_harness('mem_drv.cpp', build_lib('optim'), be, 'optim', extra=['-DVERIF_LEDGER'], name='mem_ledger')
+        lines = ['allocfail %d %d %d %d %d %d' % (fn, N, k, l, B, ctx.seed * 13 + i) for i, (fn, N, k, l, B) in enumerate(cases)]
+        outs = run_lines(exe, lines, timeout=1800)
+        for (fn, N, k, l, B), line, o in zip(cases, lines, outs):
+            t = o.split()
+            ctx.count(('allocfail', be, fn, N, k, l, B))
+            if not t or t[0] != 'ok' or len(t) < 7:
+                if t[:2] == ['ok', '-1']: continue
+                ctx.report('allocfail-crash', '%s (%s, N=%d): the fault-injection run died outside a fault point: %s' % (ALLOCFAIL_FN[fn], be, N, o[:120]), {'tool': 'allocfail', 'backend': be, 'lines': [line]}); continue
+            total, right, rep, died, wrong, first = [int(x) for x in t[1:7]]
+            tot['calls'] += 1; tot['fault_points'] += min(total, 64); tot['reported'] += rep; tot['died'] += died; tot['unaffected'] += right
+            if wrong:
+                what = ('two undisturbed calls on the same inputs differ' if first == -1 else
+                        'with allocation request #%d of %d failing, the call returns normally with a wrong result (it neither reports the failure nor computes the right value)' % (first, total))
+                ctx.report('silent-wrong-under-allocation-failure', '%s, %s back-end, N=%d k=%d (l,Bgbit)=(%d,%d): %s; %d of %d fault points silent' % (ALLOCFAIL_FN[fn], be, N, k, l, B, what, wrong, min(total, 64)),
+                           {'tool': 'allocfail', 'backend': be, 'lines': [line], 'observed': o})
+    ctx.cov['allocation_fault_injection'] = tot
+
+def allocfail_replay(data):
+    exe = build_harness('mem_drv.cpp', build_lib('optim'), data.get('backend', 'spqlios-fma'), 'optim', extra=['-DVERIF_LEDGER'], name='mem_ledger')
+    for l, o in zip(data['lines'], run_lines(exe, data['lines'], timeout=1800)):
+        print(l, '->', o, ' (allocations, unaffected, reported, died, silently wrong, first silent fault point); recorded:', data.get('observed'))
+    return 0
